@@ -2,14 +2,18 @@
 # Applies a seeded change (patch.diff) to a scratch copy of /repo and runs every property check on it;
 # prints only violations that do not already occur on the unchanged tree.
 # usage: seed_eval.sh <patch.diff>
+# env: UQ_BIN (checker binary to use; the table scripts pass a private copy so that a rebuild cannot mix versions),
+#      UQ_BASE (file with the violation keys of the unchanged tree, computed once by the table scripts)
 patch=${1:?patch}
+bin=${UQ_BIN:-/verif/bin/uqcheck}
 d=$(mktemp -d /tmp/uqseed.XXXXXX)
 trap 'rm -rf "$d"' EXIT
 rsync -a --exclude .git /repo/ "$d/repo/"
 mkdir -p "$d/ev0" "$d/ev"
-/verif/bin/uqcheck -property all -repo "$d/repo" -verif /verif -evidence-dir "$d/ev0" 2>&1 | grep -E "^  violated" | sed -E 's/ at [^ ]+:[0-9]+.*//' | sort -u > "$d/base.txt"
+if [ -n "${UQ_BASE:-}" ] && [ -f "$UQ_BASE" ]; then cp "$UQ_BASE" "$d/base.txt"; else
+"$bin" -property all -repo "$d/repo" -verif /verif -evidence-dir "$d/ev0" 2>&1 | grep -E "^  violated" | sed -E 's/ at [^ ]+:[0-9]+.*//' | sort -u > "$d/base.txt"; fi
 if ! (cd "$d/repo" && patch -p1 -s --no-backup-if-mismatch < "$patch"); then echo "PATCH DOES NOT APPLY"; exit 3; fi
-out=$(/verif/bin/uqcheck -property all -repo "$d/repo" -verif /verif -evidence-dir "$d/ev" 2>&1 | grep -v conda)
+out=$("$bin" -property all -repo "$d/repo" -verif /verif -evidence-dir "$d/ev" 2>&1 | grep -v conda)
 if echo "$out" | grep -q "LOAD FAILURE"; then echo "$out" | head -5; exit 4; fi
 new=$(echo "$out" | grep -E "^  violated" | while IFS= read -r line; do k=$(echo "$line" | sed -E 's/ at [^ ]+:[0-9]+.*//'); grep -qxF "$k" "$d/base.txt" || echo "$line"; done)
 if [ -n "$new" ]; then echo "$new" | cut -c1-${SEED_COLS:-300}; exit 0; else echo "NOT DETECTED by any check"; exit 1; fi
